@@ -57,6 +57,13 @@ func (s MetricSorter) Less(i, j int) bool {
 		return len(s[i].Label) < len(s[j].Label)
 	}
 	for n, lp := range s[i].Label {
+		// Inconsistent metrics (see above) can also differ in their label
+		// names, so those have to take part in a reproducible sorting.
+		ni := lp.GetName()
+		nj := s[j].Label[n].GetName()
+		if ni != nj {
+			return ni < nj
+		}
 		vi := lp.GetValue()
 		vj := s[j].Label[n].GetValue()
 		if vi != vj {
